@@ -285,6 +285,14 @@ func runC52(c *Ctx) {
 			}
 		})
 		c.Check(usesWriter && usesEncode, r4, ar.Name()+":writer", ar.Decl.Pos(), "appends through DotGit.ReflogWriter and reflog.Encode")
+		// the error of the deferred Close reaches the caller (an append whose data was not flushed is not a success)
+		sub := newCtx(p, c.Prop, c.Tier)
+		DeferredErrorsReachResult(sub, "deferred-error-reaches-result", "storage/filesystem")
+		for _, o := range sub.Obs {
+			if strings.HasPrefix(o.Construct, ar.Name()) {
+				c.Obs = append(c.Obs, o)
+			}
+		}
 	}
 	c.Floor(r4, 2)
 }
